@@ -1,6 +1,9 @@
-/- Driver op for C11: run a call history through the class table of `Model/History.lean`. -/
+/- Driver op for C11: run a call history through the class table *derived from zEpid's source* (`Gen/Tables.lean`,
+   regenerated on every run by harness/py2lean.py + harness/effects.py); `Props/C11_Gen.lean` identifies those tables
+   with the hand-written ones of `Model/History.lean` and proves the side conditions on them. -/
 import Driver.Common
 import ZepidVerif.Model.History
+import ZepidVerif.Gen.Tables
 namespace ZVD
 open ZV ZV.History
 
@@ -21,7 +24,7 @@ def opHist (a : Args) : Except String String := do
   let name ← need a "cls" some
   let miss ← need a "miss" parseBool
   let calls ← need a "ops" (parseList parseCall)
-  match clsByName name miss with
+  match ZV.Gen.Tables.clsByName name miss with
   | none => throw ("unknown-cls:" ++ name)
   | some C =>
     let ops : List Op := (calls.zip (List.range calls.length)).map fun ((m, f), i) => ⟨m, i, f⟩
@@ -29,7 +32,7 @@ def opHist (a : Args) : Except String String := do
     let sh (t : Trace) : String :=
       if t.ok then s!"k/{showDots (t.replay.map (·.arg))}/{showDots t.stale}/{showDots (t.after.map (·.arg))}"
       else s!"e/{showDots (t.replay.map (·.arg))}"
-    pure s!"ok n={ops.length} nslots={C.nslots} steps={";".intercalate (tr.map sh)} final={showDots ((normalize C ops).map (·.arg))} last={showDots ((lastSpecs C ops).map (·.arg))}"
+    pure s!"ok n={ops.length} nslots={C.nslots} nregs={C.nregs} steps={";".intercalate (tr.map sh)} final={showDots ((normalize C ops).map (·.arg))} last={showDots ((lastSpecs C ops).map (·.arg))}"
 
 def opsC11 : OpTable := [("hist", opHist)]
 
